@@ -372,6 +372,15 @@ func c04Replay(args []string) int {
 					if rich {
 						sxp = " " + xp + " \n" // the readers trim the target xpath
 					}
+					// the target xpath is evaluated from the document node: a relative path says the same as the absolute one
+					if vi == 0 && len(c.X.Steps) > 0 && c.X.Steps[0].Axis == "child" && strings.HasPrefix(xp, "/") {
+						switch (len(text) + len(xp)) % 3 {
+						case 1:
+							sxp = xp[1:]
+						case 2:
+							sxp = "." + xp
+						}
+					}
 					if format == "xml" {
 						sr, e = idr.NewXMLStreamReader(strings.NewReader(text), sxp)
 					} else {
